@@ -60,7 +60,12 @@ def run_case(case, ctx, with_ignore=False, judge=None):
             ctx.count("histories_through_recached_wrappers")
         if verbose:
             ctx.count("histories_with_a_verbose_memory")
-        outs = memhist.run_sessions(d, f"mh_{case['i']}", funcs, segs, compress=compress, recache=recache, verbose=verbose)
+        # the cache directory under other spellings than its canonical path (one per process): relative to the working directory,
+        # with a 'sub/..' detour, through a symbolic link
+        styles = rng.choice([None, None, ["relative"], ["dotdot"], ["symlink"], ["plain", "relative", "symlink"], ["dotdot", "plain"]])
+        if styles:
+            ctx.count("histories_with_a_non_canonical_cache_location")
+        outs = memhist.run_sessions(d, f"mh_{case['i']}", funcs, segs, compress=compress, recache=recache, verbose=verbose, location_styles=styles)
         ctx.evaluated()
         if any(o[0] is None for o in outs):
             bad = next(o for o in outs if o[0] is None)
@@ -68,7 +73,7 @@ def run_case(case, ctx, with_ignore=False, judge=None):
             return
         if nproc > 1:
             ctx.count("multi_process_histories")
-        (judge or judge_c02)(ctx, funcs, segs, outs, dict(compress=compress, nproc=nproc, recache=recache, verbose=verbose))
+        (judge or judge_c02)(ctx, funcs, segs, outs, dict(compress=compress, nproc=nproc, recache=recache, verbose=verbose, location_styles=styles))
     finally:
         shutil.rmtree(d, ignore_errors=True)
 
@@ -83,6 +88,9 @@ def judge_c02(ctx, funcs, segs, outs, meta):
     for seg, (res, _) in zip(segs, outs):
         for step, rec in zip(seg["steps"], res["steps"]):
             f = funcs[step["f"]]
+            if step.get("op") == "clear":
+                ctx.count("clears_in_the_middle_of_a_history")
+                continue
             c, p = rec["cached"], rec["plain"]
             sstr = f"{f['kind']} {gen_sig.sig_str(tuple(tuple(s) for s in f['sig']))} ignore={f['ignore']}"
             desc = dict(function=sstr, args=step["args"], kwargs=step["kwargs"], how=step["how"], **meta)
@@ -111,4 +119,4 @@ def judge_c02(ctx, funcs, segs, outs, meta):
                 return
     if len(ctx.samples) < 4:
         ctx.sample(dict(functions=[f"{f['kind']} {gen_sig.sig_str(tuple(tuple(s) for s in f['sig']))} ignore={f['ignore']}" for f in funcs],
-                        first_steps=[dict(f=s["f"], args=s["args"], kwargs=s["kwargs"], how=s["how"]) for s in segs[0]["steps"][:4]], **meta))
+                        first_steps=[dict(f=s["f"], args=s["args"], kwargs=s["kwargs"], how=s.get("how")) for s in segs[0]["steps"][:4]], **meta))
